@@ -45,6 +45,8 @@ def run(chk):
         _compose.run_lib(lib, chk, "C11")
     _graph.run_family(chk, {"C11", "C10"}, tier="quick")
     msgpack_objects(chk)
+    from props import _alloc
+    _alloc.run_alloc(chk, 2 if chk.tier == "quick" else 25, props=("C11",))
     from props import _state
     _state.run_length_wrap(chk)
     _compose.finish(chk)
